@@ -53,6 +53,9 @@ func startREST() {
 
 func writeTree(dir string, n *node) error {
 	p := filepath.Join(dir, n.name)
+	if n.link != "" {
+		return os.Symlink(n.link, p)
+	}
 	if !n.dir {
 		return ioutil.WriteFile(p, n.content, 0600)
 	}
